@@ -383,6 +383,24 @@ def main():
                 cex[(kr['unit'], f['fn'], f['kind'])] = kr.get('cex')
             elif kr.get('status') == 'undecided':
                 undecided.append('kani %s: %s' % (kr['harness'], kr.get('why', '')))
+    # ---- known findings recorded by input/call site: replayed against the real code on every run
+    known_replayed = []
+    for k in known.get('known', []):
+        if k.get('property') != pid or not k.get('replays'):
+            continue
+        if not vcex.build_replay():
+            undecided.append('known finding %s could not be replayed (replay binary build failed)' % k['id'])
+            continue
+        still = False
+        for sc in k['replays']:
+            rc, out = vcex.run_scenario(sc)
+            if rc == 1:
+                still = True
+        known_replayed.append(dict(id=k['id'], still_reproduces=still, call_site=k.get('call_site')))
+        if still:
+            print('KNOWN-FINDING: property=%s %s [%s]' % (pid, k['what'], k.get('call_site', '')))
+        else:
+            print('note: known finding %s no longer reproduces on this tree' % k['id'])
     # ---- evidence
     fns = [f for r in results for f in r['functions']]
     obligations = sum(r['verus_verified'] + r['verus_errors'] for r in results)
@@ -410,7 +428,7 @@ def main():
             kani=[{k: v for k, v in kr.items() if k not in ('output',)} for kr in kani_res],
             bounded=[dict(harness=k['harness'], bound=k.get('bound')) for k in kani_res if not k.get('complete')],
             undecided=undecided,
-            known_findings=[dict(id=k['id'], fn=f['fn'], kind=f['kind']) for k, f in known_hits],
+            known_findings=[dict(id=k['id'], fn=f['fn'], kind=f['kind']) for k, f in known_hits] + known_replayed,
             not_decided=pinfo.get('not_decided', []),
         ),
         assumptions=assumptions + pinfo.get('assumptions', []),
